@@ -14,6 +14,10 @@ def make_plan(prop, rng, idx, tier, variant="asan"):
             plan = hist.gen_sole_survivor(rng, "C12")
             plan["knobs"]["scon_fatal"] = 0
             return plan, "sole-survivor"
+        if idx % 25 == 9:
+            plan = hist.gen_twin_walks(rng, "C12")
+            plan["knobs"]["scon_fatal"] = 0
+            return plan, "twin-walks"
         if idx % 25 == 18:
             plan = hist.gen_flavours(rng, "C12")
             plan["knobs"]["scon_fatal"] = 0
@@ -39,6 +43,8 @@ def make_plan(prop, rng, idx, tier, variant="asan"):
             return hist.gen_flavours(rng, "C13"), "value-flavours"
         if idx % 40 in (35, 15):
             return hist.gen_odd_file(rng, "C13"), "odd-file"
+        if idx % 40 == 21:
+            return hist.gen_twin_walks(rng, "C13"), "twin-walks"
         if idx % 20 == 9 and variant != "vg":
             # the CLI is one of the executions the property quantifies over
             from . import cli
